@@ -290,6 +290,8 @@ pub fn get_best_move(
                 // if we have not found a move to send back, send back the best move as determined by the order_heuristic
                 // this can happen on very short time control situations
                 if best_move.is_none() {
+                    #[cfg(walleye_verif)]
+                    crate::verif_hooks::event_send(&moves[0]);
                     tx.send(moves[0].clone()).unwrap();
                 }
                 return;
@@ -315,6 +317,8 @@ pub fn get_best_move(
                 //alpha raised, remember this line as the pv
                 alpha = evaluation;
                 best_move = Some(mov.clone());
+                #[cfg(walleye_verif)]
+                crate::verif_hooks::event_send(mov);
                 tx.send(mov.clone()).unwrap();
                 search_info.set_principle_variation();
                 send_search_info(&search_info, cur_depth, evaluation, start);
